@@ -525,6 +525,10 @@ def make_cases(ctx, rng, cd, witnesses, gdict):
         if rng.random() < 0.35:
             add("F", gf, tag + "/frame-paths", dict_=dct, cap=len(gdict["plain"]) + 64)
     add("D", gf, "dict-valid", dict_=gd, cap=len(gdict["plain"]) + 64, base=gdict["plain"])
+    # round 2: ZSTD_copyDCtx of a context prepared with the dictionary; the source left alone / freed / used for something else
+    for mode in (0, 1, 2, 3):
+        for _ in range(2 if quick else 12):
+            add("C", b"", "copydctx:%d" % mode, dict_=gd, cap=1024, flags=str(mode))
     # (5) legacy frames v0.5 - v0.7 (sanitizer only)
     leg = legacy_frames()
     ctx.notes["legacy_frames"] = len(leg)
@@ -537,6 +541,14 @@ def make_cases(ctx, rng, cd, witnesses, gdict):
             add("L", fr, "legacy-dict:%d" % dl, dict_=rng.randbytes(dl), cap=4096)
         for tail in (0, 1, 3, 4, 8, 60, 300):
             add("L", fr, "legacy-dict-magic:%d" % tail, dict_=bytes.fromhex(lmagic) + rng.randbytes(tail), cap=4096)
+        # entropy section found by the round-2 fuzzing campaign: Huffman table, offset-code and match-length descriptions that parse,
+        # literal-length description that does not (the v0.5 loader then tested a table log nobody had written) - and its neighbours
+        ENT = bytes.fromhex("fca430ecfcfe715500befeff5500beff")
+        add("L", fr, "legacy-dict-entropy", dict_=bytes.fromhex(lmagic) + ENT, cap=4096)
+        for j in range(len(ENT)):
+            e = bytearray(ENT)
+            e[j] = mut_byte(rng, e[j])
+            add("L", fr, "legacy-dict-entropy-mut", dict_=bytes.fromhex(lmagic) + bytes(e) + (rng.randbytes(rng.choice([0, 0, 9, 40]))), cap=4096)
         for i in range(120 if quick else 1200):
             b = bytearray(fr)
             r = rng.random()
@@ -730,7 +742,9 @@ def build_msan_harness(defs):
     cc = shutil.which("clang")
     if not cc:
         return None
-    flags = ["-O1", "-g", "-fsanitize=memory", "-fsanitize-memory-track-origins", "-fno-omit-frame-pointer", "-w",
+    # -O0: at -O1 clang merges `if (log > MAX) return E; if (isError(h)) return E;` into one test whose result does not depend on the
+    # uninitialised operand, and MemorySanitizer (rightly) stays silent on the optimised code: the source-level read is what the property is about
+    flags = ["-O0", "-g", "-fsanitize=memory", "-fsanitize-memory-track-origins", "-fno-omit-frame-pointer", "-w",
              "-DZSTD_VERIF", "-DZSTD_LEGACY_SUPPORT=5", "-DZSTD_DISABLE_ASM", "-DC03_DECODER_ONLY"] + list(defs)
     srcs = (sorted(glob.glob(os.path.join(core.REPO, "lib", "common", "*.c"))) + sorted(glob.glob(os.path.join(core.REPO, "lib", "decompress", "*.c")))
             + [os.path.join(core.REPO, "lib", "legacy", "zstd_v0%d.c" % v) for v in (5, 6, 7)])
@@ -818,6 +832,39 @@ def msan_pass(ctx, defs, cases, out_asan):
     ctx.notes["msan"] = dict(cases=len(sub), reports=len(crashes), tolerated_leniency_differences=ndiff)
 
 
+def check_ctx_pointers(ctx, model_exe, items, variant):
+    """C cases: where the four table pointers of the copy point right after ZSTD_copyDCtx must be what the repaired model
+    (CtxPointers.pstep true, proved private for every history) says; the verbatim-copy model names the known defect."""
+    if not items:
+        return
+    lines, exp = [], {}
+    for c, pt in items:
+        ops = "u1:9;c2:1" if c["flags"] == "3" else "b1;c2:1"
+        for m in ("fixed", "asis"):
+            for q in ("2", "1"):
+                lines.append("T %s/%s/%s %s %s %s" % (c["id"], m, q, m, q, ops))
+    res = {}
+    for l in run_model(model_exe, lines):
+        t = l.split(" ")
+        if len(t) >= 3 and t[0] == "T":
+            res[t[1]] = t[2]
+    n_ok = 0
+    for c, pt in items:
+        fixed = "%s:%s" % (res.get(c["id"] + "/fixed/2"), res.get(c["id"] + "/fixed/1"))
+        asis = "%s:%s" % (res.get(c["id"] + "/asis/2"), res.get(c["id"] + "/asis/1"))
+        ctx.count(("ctxptr", c["flags"], pt), nontrivial=True)
+        if pt == fixed:
+            n_ok += 1
+        elif pt == asis:
+            ctx.violation(replay_of(c, what="ctxptr", observed=pt, model_fixed=fixed, variant=variant),
+                          what="ZSTD_copyDCtx (scenario %s): the table pointers of the copy point into the source context (%s; private pointers: %s)" % (c["origin"], pt, fixed),
+                          key="C03-copydctx-table-pointers-into-source")
+        else:
+            ctx.violation(replay_of(c, what="ctxptr", observed=pt, model_fixed=fixed, model_aswritten=asis, variant=variant),
+                          what="ZSTD_copyDCtx (scenario %s): table pointers %s follow neither the private-pointer model (%s) nor the verbatim copy (%s)" % (c["origin"], pt, fixed, asis))
+    ctx.notes["ctx_pointer_traces"] = dict(total=len(items), private=n_ok)
+
+
 def has_empty_op(prog):
     return any(t in ("i0", "z") for t in prog.split(","))
 
@@ -830,6 +877,8 @@ def crash_key(c, err):
         return "C03-legacy-v05v06-short-dict-overread"
     if c["cmd"] == "K" and has_empty_op(c["flags"]) and "ZSTD_decompressBlock" in err:
         return "C03-block-api-empty-insertblock-loses-prefix"
+    if c["cmd"] == "C" and "cmd_C" in err:
+        return "C03-copydctx-table-pointers-into-source"
     return None
 
 
@@ -858,7 +907,7 @@ def evaluate(ctx, cd, model_exe, cases, out, crashes, npmax, variant):
         core.log("R on %d frame-level cases: %.1fs" % (len(rin), time.time() - t0))
     else:
         mres = getattr(ctx, "c03_R", {})
-    hist, perm, wd_items, rg_items, pathdiff, k_items = {}, {}, [], [], [], []
+    hist, perm, wd_items, rg_items, pathdiff, k_items, c_items = {}, {}, [], [], [], [], []
     stricter, sites, stricter_ex, okmut = 0, {}, {}, 0
     for c in cases:
         if c["id"] not in out:
@@ -871,11 +920,14 @@ def evaluate(ctx, cd, model_exe, cases, out, crashes, npmax, variant):
             else:
                 ctx.violation(replay_of(c, flags=fl, result=out[c["id"]][:600], variant=variant),
                               what="decoder oracle failed on a %s input (%s build): %s" % (c["origin"], variant, fl),
-                              key="C03-block-api-empty-insertblock-loses-prefix" if (c["cmd"] == "K" and fl == "EMPTYOP") else None)
+                              key=("C03-block-api-empty-insertblock-loses-prefix" if (c["cmd"] == "K" and fl == "EMPTYOP") else
+                                   "C03-copydctx-table-pointers-into-source" if (c["cmd"] == "C" and fl == "COPYDIFF") else None))
         o = c["origin"].split(":")[0]
         hist[o] = hist.get(o, 0) + 1
         if c["cmd"] == "K" and variant == "asan":
             k_items.append((c, fd.get("ops", "-"), fd.get("cs", "-")))
+        if c["cmd"] == "C" and variant == "asan" and "pt" in fd:
+            c_items.append((c, fd["pt"]))
         if c["cmd"] != "F":
             one = fd.get("one", fd.get("blk", ""))
             ctx.count((c["cmd"], c["origin"].split("/")[0], one[:2], fd.get("ddict", "")[:8], fd.get("c3", "")[:4]), nontrivial=True)
@@ -951,6 +1003,7 @@ def evaluate(ctx, cd, model_exe, cases, out, crashes, npmax, variant):
     if variant == "asan":
         check_watchdog(ctx, model_exe, wd_items, npmax)
         check_continuity(ctx, model_exe, k_items, variant)
+        check_ctx_pointers(ctx, model_exe, c_items, variant)
         ctx.notes["ring_traces"] = check_ring(ctx, model_exe, rg_items)
         ctx.notes["origins"] = hist
         ctx.notes["permissive_cases"] = perm
